@@ -19,7 +19,7 @@ RULE = ("one run = valid document + scheduled delivery + history of legal add/rm
         "distinct model-text digests compared")
 PROBES = ["settled_compare", "unsettled_skip", "cascade_ge3", "cascade_transitive", "gap_unmention",
           "rename_mentioned", "forward_reference_add", "restart_crosscheck", "group_merge",
-          "fanout2_removal", "readd_removed", "model_unspecified"]
+          "fanout2_removal", "readd_removed", "model_unspecified", "anonymise_mentioned"]
 
 
 def tag_edit(rng, rec):
@@ -101,6 +101,12 @@ def gen(streams, tier, i):
             new = sh.fresh(hr)
             m.rename(nm, new)
             ops.append({"op": "rename", "id": nm, "new": new})
+        elif r < 0.60 and version == "gfa2":
+            # a line that a group mentions cannot lose its identifier: the mention could not be written any more
+            ment = sorted(x for x in names if ns[x][0].rt in ("E", "G", "O", "U")
+                          and any(x in m.item_mentions(q) for q in m.recs if q.rt in ("O", "U")))
+            if ment:
+                ops.append({"op": "rename", "id": hr.choice(ment), "new": "*", "expect": "refused"})
         elif r < 0.72:
             cands = [x for x in m.recs if x.rt not in ("#",)]
             if not cands:
@@ -255,6 +261,20 @@ def run(scn, st):
                     if len(getattr(t, c)) >= 2:
                         st.count("probe.fanout2_removal")
                         break
+        if op.get("expect") == "refused":
+            rec = m.by_name(op["id"])
+            if rec is None or not any(op["id"] in m.item_mentions(q) for q in m.recs if q.rt in ("O", "U")):
+                continue
+            out = w.apply(op)
+            st.count("probe.anonymise_mentioned")
+            st.count("oracle.illegal_step_refused")
+            if out.ok:
+                raise core.Violation("illegal-step-accepted",
+                                     "step %d: %r (%s) is mentioned by a group; renaming it to '*' was accepted: the "
+                                     "mention cannot be written" % (n, op["id"], rec.rt), op="rename", rt=rec.rt)
+            if m.settled() and w.gfa.version == version:
+                compare(w, m, st, n, op)
+            continue
         exp = model_apply(m, op, st)
         if exp == "skip":
             # target absent in the model: the op is void (can happen in shrunk histories)
